@@ -131,3 +131,35 @@ func VerifC19_DestroyReuse() {
 	}
 	vpReach("end")
 }
+
+// VerifC19_DestroyLeftovers: fragments of the destroyed DMap that are not where the routing table says copies live -
+// a backup fragment on the member that (by now) is the partition's primary owner, as a departed primary leaves
+// behind; a primary fragment on the backup owner, as an unfinished hand-over leaves behind - are wiped by Destroy
+// like every other copy, through either member, for ReplicaCount 2; fragments of another DMap in the same places
+// survive.
+func VerifC19_DestroyLeftovers() {
+	cl := vpTwoMembers(2, 0)
+	ctx := context.Background()
+	vpAssume(vpDMap(cl.members[0], "a").Put(ctx, "c", []byte{1}, nil) == nil)
+	vpAssume(vpDMap(cl.members[0], "ab").Put(ctx, "c", []byte{2}, nil) == nil)
+	type spot struct {
+		m    int
+		kind partitions.Kind
+	}
+	spots := [2]spot{{0, partitions.BACKUP}, {1, partitions.PRIMARY}}
+	for _, sp := range spots {
+		if vpChoose("leftover", 2) == 1 {
+			vpPlace(cl.members[sp.m], "a", "bc", []byte{3}, 0, 1, sp.kind)
+			vpPlace(cl.members[sp.m], "ab", "bc", []byte{4}, 0, 1, sp.kind)
+		}
+	}
+	vpAssert(vpDMap(cl.members[vpChoose("destroyer", 2)], "a").Destroy(ctx) == nil, "destroy-succeeds")
+	for m := 0; m < 2; m++ {
+		vpAssert(!vpHasFragment(cl.members[m], "a", partitions.PRIMARY, 1), "destroy-removes-primary-fragment")
+		vpAssert(!vpHasFragment(cl.members[m], "a", partitions.BACKUP, 1), "destroy-removes-backup-fragment")
+	}
+	vpAssert(vpHasFragment(cl.members[0], "ab", partitions.PRIMARY, 1) && vpHasFragment(cl.members[1], "ab", partitions.BACKUP, 1), "other-dmap-keeps-its-copies")
+	_, gerr := vpDMap(cl.members[1], "ab").Get(ctx, "c")
+	vpAssert(gerr == nil, "other-dmap-still-readable")
+	vpReach("end")
+}
